@@ -58,7 +58,7 @@ public:
 
   //! Scalar multiplication
   const Quaternion& operator *= (const T& a)
-    { s0*=a; s1*=a; s2*=a; s3*=a; return *this; }
+    { const T c (a); s0*=c; s1*=c; s2*=c; s3*=c; return *this; }
 
   //! Scalar division
   const Quaternion& operator /= (const T& a)
